@@ -8,6 +8,7 @@
 //        h request+shutdown(WR)+read to EOF, r request+RST, i silence until the server closes, j partial head then silence,
 //        m request/response then silence until the server closes, z slow 24 MB answer requested and the connection closed at once, w 24 MB answer never read (write blocked across several idle scans) then RST
 //        s 16 MB file asked for (Http::serveFile), 17 bytes read through a 4 kB receive buffer, close;  S the file downloaded completely;
+//        A the file asked for, 2 MB of it read, then RST while the transfer is in full swing;
 //        t answer sent after ResponseWriter::timeoutAfter(300 ms) was armed (the timer is disarmed by the answer)
 //   After every round as many fresh connections as the round had (at most 8) are opened together and each sends one
 //   request: it must receive exactly its own answer and nothing else (what an earlier connection on the same descriptor
@@ -281,6 +282,15 @@ void http_client(char b, uint16_t port)
         ::close(fd);
         break;
     }
+    case 'A':
+    {
+        // the download is in full swing (the worker is in its write loop) when the client resets the connection
+        pv::send_all(fd, "GET /file HTTP/1.1\r\nHost: a\r\n\r\n");
+        std::string buf;
+        pv::read_until(fd, buf, [](const std::string& x) { return x.size() >= (2u << 20); }, 3000);
+        rst_close(fd);
+        break;
+    }
     case 'S':
         pv::send_all(fd, "GET /file HTTP/1.1\r\nHost: a\r\n\r\n");
         read_response(fd);
@@ -394,7 +404,7 @@ static std::string handle(const std::string& line)
                 .bodyTimeout(std::chrono::milliseconds(600)));
     ep.setHandler(std::make_shared<HttpHandler>());
     ep.serveThreaded();
-    if (t[3].find_first_of("sS") != std::string::npos)
+    if (t[3].find_first_of("sSA") != std::string::npos)
     {
         char name[] = "/tmp/pv_lifecycle_XXXXXX";
         int ffd     = mkstemp(name);
@@ -425,7 +435,19 @@ static std::string handle(const std::string& line)
     return out;
 }
 
+#include <execinfo.h>
+static void sigpipe_bt(int)
+{
+    // diagnosis only (PV_SIGPIPE_BT=1): where a write to a broken connection raised SIGPIPE
+    void* frames[40];
+    int n = backtrace(frames, 40);
+    backtrace_symbols_fd(frames, n, 2);
+    _exit(141);
+}
+
 int main()
 {
+    if (getenv("PV_SIGPIPE_BT"))
+        signal(SIGPIPE, sigpipe_bt);
     return pv::run_cases(handle);
 }
